@@ -84,6 +84,58 @@ class RekeyTouchesNothing(SM.Monitor):
                                                                'CHILD_SAs of the replaced IKE_SA')
 
 
+class DeleteJustified(SM.Monitor):
+    """authentic histories only: a CHILD_SA delete request is sent only for a CHILD_SA that hard-expired at the sender, or
+    that the sender has just replaced by a completed rekey naming it ("removes exactly the replaced pair")"""
+    name = 'delete-justified'
+
+    def start(self, sim):
+        from .. import observer as OB
+        self.ob = OB.Observer(sim.w)
+        self.ok = set()          # (endpoint name, spi hex) the endpoint may delete
+        self.seen_children = 0
+        self.pos = 0
+
+    def post(self, sim, ev):
+        from ..ref import ikewire as W
+        if ev.kind == 'expire' and ev.info.get('hard') and ev.info.get('child') is not None:
+            self.ok.add((ev.ep.name, bytes(ev.info['child'].inbound_spi).hex()))
+        try:
+            self.ob.sync()
+        except Exception:
+            return
+        for c in self.ob.children[self.seen_children:]:
+            if c['rekey'] and c.get('rekey_spi'):
+                ini = 'a' if c['init'] == str(sim.a.addrs[0]) else 'b'
+                # a completed rekey: its REKEY_SA notification named the initiator's inbound SPI of the CHILD_SA it replaces,
+                # which the initiator now deletes
+                self.ok.add((ini, c['rekey_spi']))
+        self.seen_children = len(self.ob.children)
+        log = sim.w.sent_log
+        while self.pos < len(log):
+            d = log[self.pos]
+            self.pos += 1
+            dec = self.ob.decoded.get(d.id)
+            if dec is None:
+                continue
+            m = dec[1]
+            if m['flags']['response']:
+                continue
+            if m['exchange'] == 37:
+                for p in W.find(m['inner'], 'DELETE'):
+                    if p['protocol'] == 1:
+                        continue
+                    for spi in p['spis']:
+                        if (d.sender, spi) in self.ok:
+                            continue
+                        if any(p_.data == d.data and p_.id < d.id for p_ in log):
+                            continue                                 # a retransmission of a justified request
+                        if True:
+                            sim.fail('delete-of-unrelated-child-sa', f'endpoint {d.sender} asked to delete CHILD_SA {spi}, which '
+                                                                     f'neither hard-expired there nor was named in a rekey it '
+                                                                     f'initiated')
+
+
 def run_case(case, fault=None):
     cfg = mk_cfg(case['cfg'])
     if case['cfg'].get('bad') == 'mode' and len(cfg['protect']) >= 2:
@@ -91,6 +143,8 @@ def run_case(case, fault=None):
     mons = [SM.SadEqualsTracked(), RekeyTouchesNothing(), SM.TableExact()]
     if fault is None:
         mons.append(SM.NoEscape())
+    if fault is None and not any(o[0] in ('rewrite', 'kfault') for o in case['ops']) and not case['cfg'].get('bad'):
+        mons.append(DeleteJustified())
     s = SM.Sim(cfg, monitors=mons)
     if case['cfg'].get('bad') == 'mode' and len(cfg['protect']) >= 2:
         _flip_mode(s)
@@ -243,6 +297,24 @@ def grid_cases():
     return out
 
 
+def loss_grid_cases():
+    """first transmission of a request lost, another trigger at either end in that window, then the retransmission"""
+    out = []
+    for cfgp in ({'dh': '19', 'n': 2}, {'dh': '19', 'n': 2, 'pfs': '19', 'mode': 'tunnel'}):
+        for t1 in c09.TRIGGERS:
+            for s1 in 'ab':
+                for t2 in c09.TRIGGERS:
+                    for s2 in 'ab':
+                        ops = [c09.to_op(t1, s1, 0), ['drop', 0], c09.to_op(t2, s2, 1), ['deliver', 0], ['deliver', 0],
+                               ['deliver', 0], ['deliver', 0], ['tick', 2.5], ['deliver', 0], ['deliver', 0]]
+                        out.append({'cfg': dict(cfgp), 'first': 'a', 'lossy': True, 'ops': ops, 'enumerate': False})
+                        # collision refused, then an unrelated trigger afterwards
+                        ops2 = [c09.to_op(t1, s1, 0), c09.to_op(t1, s2, 0), ['deliver', 0], ['deliver', 0], ['deliver', 0],
+                                ['deliver', 0], c09.to_op(t2, s1, 2), ['deliver', 0], ['deliver', 0], ['deliver', 0]]
+                        out.append({'cfg': dict(cfgp), 'first': 'a', 'lossy': False, 'ops': ops2, 'enumerate': False})
+    return out
+
+
 def grid_worker(chunk):
     st_ = Stats()
     for case in chunk:
@@ -273,8 +345,12 @@ def run(ctx):
     n_enum = 8 if ctx.quick else 250
     tasks = []
     g = grid_cases()
+    lg = loss_grid_cases()
     for i in range(common.NCPU):
         tasks.append(('grid', g[i::common.NCPU]))
+        tasks.append(('grid', lg[i::common.NCPU]))
+    ctx.extra['loss_grid'] = (f'{len(lg)} directed cases: (trigger lost, second trigger in the window, retransmission) and (colliding '
+                              f'pair, then a third trigger) over all trigger kinds and sides, two configurations')
     for i in range(common.NCPU):
         tasks.append(('w', (n_hist, ctx.seed * 64 + i, False)))
         tasks.append(('w', (n_enum, ctx.seed * 64 + 32 + i, True)))
